@@ -809,6 +809,28 @@ fn all_cases(cx: &mut Ctx, thorough: bool) -> Vec<Case> {
             cases.push(c);
         }
     }
+    // buckets larger than the insertion-sort cut-off whose FIRST element is exactly the bucket's common prefix (the string that
+    // ends where the next radix level starts), at depths 0, 1, 3 and 9 - for every strategy, the MSD recursion in particular
+    for strat in 0..=6u64 {
+        for &it in &[0u64, 2, 16, 100] {
+            for &d in &[0usize, 1, 3, 9] {
+                if !thorough && (strat + it + d as u64) % 2 == 1 && strat != 4 { continue; }
+                let mut c = Case::new("adv/str", &[strat, 8, 0, 10_000, 2, it, r.below(2), 0]);
+                let prefix: Vec<u8> = (0..d).map(|i| b'a' + (i % 3) as u8).collect();
+                let mut strs = vec![prefix.clone()];
+                for _ in 0..(it as usize + 5) {
+                    let mut t = prefix.clone();
+                    let l = r.range(1, 4) as usize;
+                    t.extend((0..l).map(|_| b'a' + r.below(3) as u8));
+                    strs.push(t);
+                }
+                // a second bucket in front, so that the interesting one is not the whole input
+                if d > 0 { strs.push(vec![b'A']); strs.push(vec![b'z', b'z']); }
+                c.strs = strs;
+                cases.push(c);
+            }
+        }
+    }
     // ---- CacheObliviousSort: every strategy branch via small cache sizes ----
     for k in 0..(60 * scale) {
         let cell = *r.pick(&["co/sort", "co/sort", "co/oblivious", "co/sort_u8"]);
